@@ -5,6 +5,7 @@ REGISTRY = {
     'C03': 'harness.fitkernel',
     'C04': 'harness.fitkernel',
     'C05': 'harness.c05',
+    'C06': 'harness.c06',
     'C10': 'harness.session',
     'C11': 'harness.fitkernel',
     'C13': 'harness.c13',
